@@ -17,6 +17,8 @@ def enc_known(val, ty, shape=0):
     shape 0: sequence<tuple<bool,uintN_t>>   value [(bool, int), ...]
     shape 1: tuple<sequence<bool>,uintN_t>   value ([bool, ...], int)  -- an immutable value holding a mutable one"""
     w = 1 if ty == "T0" else 2
+    if shape == 2:
+        return u64(len(val)) + b"".join(int(n).to_bytes(w, "little") for n in val)
     if shape == 0:
         return u64(len(val)) + b"".join(bytes([1 if b else 0]) + n.to_bytes(w, "little") for b, n in val)
     bs, n = val
@@ -30,7 +32,13 @@ class Rep:
         self.kind = kind
         self.vals = {"v0": [(True, 5)], "vm": [(True, 5), (False, 7)], "vn": [(False, 1)]}
         self.shape = 0
-        if kind == "known" and variant % 2 == 1:
+        if kind == "known" and variant % 3 == 2:
+            # shape 2: sequence<uintN_t>; the value assigned is a bytearray (a mutable Sequence of small integers like any other)
+            self.shape = 2
+            self.vals = {"v0": [5], "vm": [5, 7], "vn": bytearray(b"\x01\x09")}
+            self.types = {"T0": "sequence<uint8_t>", "T1": "sequence<uint16_t>"}
+            self.raw = {True: enc_known(self.vals["v0"], "T0", 2), False: enc_known(self.vals["v0"], "T0", 2)}
+        elif kind == "known" and variant % 3 == 1:
             self.shape = 1
             self.vals = {"v0": ([True], 5), "vm": ([True, False], 5), "vn": ([False], 5)}
             self.types = {"T0": "tuple<sequence<bool>,uint8_t>", "T1": "tuple<sequence<bool>,uint16_t>"}
@@ -145,7 +153,7 @@ class TableEnv:
                 return "none"
             if n == "assign":
                 vn = self.rep.vals["vn"]
-                t.data = (list(vn[0]), vn[1]) if self.rep.shape == 1 else list(vn)
+                t.data = (list(vn[0]), vn[1]) if self.rep.shape == 1 else bytearray(vn) if self.rep.shape == 2 else list(vn)
                 return "none"
             if n == "settype":
                 t.type_name = self.rep.types[op["t"]]
@@ -161,7 +169,8 @@ class TableEnv:
                         probe = self.g.IR.load_protobuf_file(io.BytesIO(raw))
                         t2 = (probe if self.level == "ir" else next(iter(probe.modules))).aux_data["t"]
                         want = self.rep.vals[op["out"]["bytes"]["val"]]
-                        if t2.type_name != exp_t or t2.data != want:
+                        same = (list(t2.data) == list(want)) if self.rep.shape == 2 else (t2.data == want)
+                        if t2.type_name != exp_t or not same:
                             return {"exc": "ReloadedTableDiffers",
                                     "msg": {"expected": [exp_t, repr(want)], "observed": [t2.type_name, repr(t2.data)[:200]]}}
                 elif got[0] != exp_t or (exp_b is not None and got[1] != exp_b):
@@ -203,7 +212,7 @@ def values_stage(ctx):
     recs = _emit(ctx, {"known"}, 5 if ctx.quick() else 6)
     steps = div = 0
     for level in ("ir", "module"):
-        for variant in range(2):
+        for variant in range(3):
             G = replay.Graph(recs, base_keys=None)
             w = replay.Walker(G, lambda: TableEnv(ctx.gtirb, level, variant, mode="values"), [], seed=ctx.seed,
                               observable=set(), max_run=50).run()
